@@ -53,6 +53,69 @@ class Obj:
         return '<%s>' % self._name
 
 
+class _ClassAttrs:
+    """Attribute view of a model class: reads follow the bases, writes go to the class's own namespace."""
+
+    def __init__(self, cls):
+        self.cls = cls
+
+    def _find(self, key):
+        for c in self.cls.mro():
+            if key in c.own:
+                return c.own
+        return None
+
+    def __contains__(self, key):
+        return key == '__dict__' or self._find(key) is not None
+
+    def __getitem__(self, key):
+        if key == '__dict__':
+            return self.cls.own
+        d = self._find(key)
+        if d is None:
+            raise KeyError(key)
+        return d[key]
+
+    def get(self, key, default=None):
+        return self[key] if key in self else default
+
+    def __setitem__(self, key, value):
+        self.cls.own[key] = value
+
+    def setdefault(self, key, value):
+        if key not in self:
+            self.cls.own[key] = value
+        return self[key]
+
+    def items(self):
+        seen = {}
+        for c in reversed(self.cls.mro()):
+            seen.update(c.own)
+        return seen.items()
+
+
+class ClassObj(Obj):
+    """A model class object: own namespace + bases; `classmethod:<name>` entries hold FunctionDefs that the
+    interpreter calls with the receiving class bound as `cls`."""
+
+    def __init__(self, name, bases=(), **own):
+        self._name = name
+        self.own = dict(own)
+        self.bases = list(bases)
+        self.attrs = _ClassAttrs(self)
+
+    def mro(self):
+        out = [self]
+        for b in self.bases:
+            for c in b.mro():
+                if c not in out:
+                    out.append(c)
+        return out
+
+    def __repr__(self):
+        return '<class %s>' % self._name
+
+
 class Raised(Exception):
     def __init__(self, kind, detail='', payload=None):
         self.kind = kind
@@ -699,6 +762,8 @@ class FD:
         kwargs = kwargs or {}
         if attr in self.methods:
             return self.methods[attr](recv, *args, **kwargs)
+        if isinstance(recv, ClassObj) and ('classmethod:' + attr) in recv.attrs:
+            return self.call_function(recv.attrs['classmethod:' + attr], list(args), kwargs, bound_self=recv)
         if isinstance(recv, Obj):
             if ('method:' + attr) in recv.attrs:
                 return recv.attrs['method:' + attr](*args, **kwargs)
